@@ -31,6 +31,7 @@ const (
 	KPtr                // *Elem
 	KSlice              // []Elem
 	KAlias              // type Name = Elem
+	KBasic              // the predeclared type int (identity = value)
 )
 
 type Field struct {
@@ -51,6 +52,7 @@ type Type struct {
 }
 
 func Ptr(t *Type) *Type   { return &Type{Kind: KPtr, Elem: t} }
+func BasicInt() *Type     { return &Type{Kind: KBasic, Name: "int"} }
 func Slice(t *Type) *Type { return &Type{Kind: KSlice, Elem: t} }
 
 // Key is the type identity (alias expanded); it is also how wire prints the type.
@@ -62,6 +64,8 @@ func (t *Type) Key() string {
 		return "[]" + t.Elem.Key()
 	case KAlias:
 		return t.Elem.Key()
+	case KBasic:
+		return "int"
 	default:
 		return t.Pkg.Path() + "." + t.Name
 	}
